@@ -211,6 +211,9 @@ def natcmpStep (st : S) (toks : List String) (impl : String) : S × String × St
       ({ rows := st.rows.push (parseRel impl) }, model, v)
     | _, _, _ => (st, "bad-op", "bad bad-op")
   | ["matrix"] => (st, "-", matrixCheck st.rows)
+  -- a `Trunc` call inside a CompareNatural history (one process: package-level state shared by the two functions,
+  -- e.g. lazily initialised byte-class tables, shows only when they are interleaved); judged as in stream C20.trunc
+  | "tr" :: _ => let r := truncStep () toks impl; (st, r.2.1, r.2.2)
   | _ => (st, "bad-op", "bad bad-op")
 
 def natcmpStream : Stream := { name := "C20.natcmp", σ := S, init := {}, step := natcmpStep }
